@@ -571,9 +571,7 @@ pub fn parse_frame(d: &[u8], pos: usize, si: Option<&RefStreamInfo>) -> P<RefFra
         return bad("reserved bit depth code 011");
     }
     let (number, number_len, number_minimal) = read_coded_number(&mut b)?;
-    if !variable && number > 0x7FFF_FFFF {
-        return bad("frame number exceeds 31 bits");
-    }
+    let number_too_wide = !variable && number > 0x7FFF_FFFF;
     let block_size: u32 = match bs_code {
         1 => 192,
         2..=5 => 576 << (bs_code - 2),
@@ -685,6 +683,11 @@ pub fn parse_frame(d: &[u8], pos: usize, si: Option<&RefStreamInfo>) -> P<RefFra
     }
     if !number_minimal {
         strict.push("coded number is not minimal length".into());
+    }
+    if number_too_wide {
+        // a range rule, not a code-table entry: the crate accepts such frames, and so they must obey
+        // C17's round-trip clause; recorded as a strict issue only
+        strict.push("frame number exceeds 31 bits".into());
     }
     Ok(RefFrame {
         start: pos,
